@@ -250,3 +250,79 @@ class CopyTreeNodeOnDeadChip:
     def ensures_skipped_and_its_children_handed_to_its_parent(g_parent, g_old, _trace):
         return (len(_trace) == 2 and _trace[0] == ("queued", g_parent.ident, g_old.children[0][0], g_old.children[0][1])
                 and _trace[1] == ("queued", g_parent.ident, g_old.children[1][0], g_old.children[1][1]))
+
+
+# ---- route(): the leaves hung on the tree for one sink of a net (fragment) ------------------------------------------------------------
+CORES = TOpt(TRec("slice", start=TInt(0, 17), stop=TInt(0, 18)))
+
+
+def _placement_of(E, obj, args, kwargs, st, node):
+    s = st.copy()
+    s.trace = _ListV(s.trace.items + (("placement_of", args[0]),))
+    return [(s, st.env["g_chip"], None)]
+
+
+def _lookup_get(E, obj, args, kwargs, st, node):
+    s = st.copy()
+    s.trace = _ListV(s.trace.items + (("node_of", args[0]),))
+    return [(s, ObjV("RoutingTree", {"ident": 5, "children": ObjV("Leaves", {})}), None)]
+
+
+def _endpoint_has(E, obj, args, kwargs, st, node):
+    return [(st, st.env["g_constrained"], None)]
+
+
+def _endpoint_get(E, obj, args, kwargs, st, node):
+    return [(st, st.env["g_route"], None)]
+
+
+def _alloc_get(E, obj, args, kwargs, st, node):
+    return [(st, ObjV("VertexAlloc", {"of": args[0]}), None)]
+
+
+def _valloc_get(E, obj, args, kwargs, st, node):
+    return [(st, st.env["g_cores"], None)]
+
+
+def _leaf_add(E, obj, args, kwargs, st, node):
+    s = st.copy()
+    s.trace = _ListV(s.trace.items + (("leaf",) + tuple(args[0]),))
+    return [(s, _NONE, None)]
+
+
+@contract("rig/place_and_route/route/ner.py::route@forbody:2")
+class RouteSinkLeaves:
+    """one sink of a net: its leaves are hung on the tree node of the chip the SINK is placed on; a sink with a route-endpoint
+    constraint gets exactly one leaf, the constrained route - whatever cores it may also have been allocated; otherwise one leaf
+    per allocated core, `Routes.core(c)` for exactly the cores c of its allocated range, in order (none for an empty range);
+    a sink with neither gets one leaf without a route (the packet is absorbed there)"""
+    properties = ("C03", "C01")
+    params = dict(sink=TInt(), placements=TRec("Placements"), lookup=TRec("NodeLookup"), route_to_endpoint=TRec("Endpoints"), allocations=TRec("Allocations"),
+                  core_resource=TInt(), g_chip=T2, g_constrained=TBool(), g_route=TInt(0, 23), g_cores=CORES)
+    fragment_result = ()
+    fragment_head = "for sink in net.sinks:"
+    externals = {"Placements.__getitem__": _placement_of, "NodeLookup.__getitem__": _lookup_get, "Endpoints.__contains__": _endpoint_has,
+                 "Endpoints.__getitem__": _endpoint_get, "Allocations.get": _alloc_get, "VertexAlloc.get": _valloc_get, "Leaves.append": _leaf_add}
+    loop_unroll = {1: 4}
+    options = {"int_class": "rig/routing_table/entries.py::Routes", "no_merge": True}
+    assumptions = ["placements, the tree's chip lookup, the endpoint table and the allocations are opaque (their answers are ghosts, what is asked and hung is "
+                   "recorded); the allocated range holds at most 4 cores here (the loop over it is unrolled under that bound)"]
+
+    def native(sink):
+        raise __import__("pyvc.replay", fromlist=["OutsideHarness"]).OutsideHarness()
+
+    def requires(g_cores):
+        return g_cores is None or unopt3(g_cores).stop - unopt3(g_cores).start <= 4
+
+    def ensures_leaves_on_the_sinks_own_chip_constraint_first_then_exactly_the_allocated_cores(sink, g_chip, g_constrained, g_route, g_cores, _trace):
+        n = len(_trace)
+        k = 0 if g_cores is None else max(0, unopt3(g_cores).stop - unopt3(g_cores).start)
+        return (n >= 2 and _trace[0] == ("placement_of", sink) and _trace[1] == ("node_of", g_chip)
+                and implies(g_constrained, n == 3 and _trace[2] == ("leaf", g_route, sink))
+                and implies(not g_constrained and g_cores is None, n == 3 and _trace[2] == ("leaf", None, sink))
+                and implies(not g_constrained and g_cores is not None,
+                            n == 2 + k and all(implies(i < k, _trace[min(2 + i, n - 1)] == ("leaf", 6 + unopt3(g_cores).start + i, sink)) for i in range(4))))
+
+
+def unopt3(x):
+    return x
